@@ -504,6 +504,10 @@ class Polygon(Shape2D):
             attempt += 1
             try:
                 center, r2 = miniball.get_bounding_ball(vertices)
+                # For degenerate supports (e.g. all vertices on one sphere) miniball
+                # occasionally returns a ball that misses vertices: treat as failure.
+                if np.any(np.sum((vertices - center) ** 2, axis=1) > r2 * (1 + 1e-6)):
+                    raise np.linalg.LinAlgError("miniball result excludes a vertex")
                 break
             except np.linalg.LinAlgError:
                 current_rotation = rowan.random.rand(1)
